@@ -24,6 +24,10 @@ pub struct Spec<M> {
 	/// the length of the stripped encoding is the offset of the TLV stream.
 	pub strip: Option<fn(&M) -> M>,
 	pub known_tlv_types: &'static [u64],
+	/// `absorb_ok(value, encoding, offset)`: a substitution at `offset` may legitimately decode to
+	/// the very same message (padding bytes, redundant fields). Everywhere else every byte of a
+	/// canonical encoding must matter.
+	pub absorb_ok: Option<fn(&M, &[u8], usize) -> bool>,
 	pub rejects: Vec<Reject>,
 	pub gen: Generated<M>,
 }
@@ -246,9 +250,11 @@ impl<M: Msg> Spec<M> {
 	fn mutation_suite(&self, cx: &mut Ctx, v: &M, e: &[u8], cfg: &Cfg) {
 		let len = e.len();
 		let mut buf = with_poison(e);
-		// 1. every prefix
-		let wire_too = len <= 4096;
-		for i in 0..len {
+		// 1. every prefix (for encodings beyond `dense_limit`: the prefix lengths of the sparse offset
+		//    set - head, tail, evenly spaced middle)
+		let big = len > cfg.dense_limit;
+		let wire_too = !big;
+		for i in offsets(len, cfg) {
 			examine::<M>(cx, Class::Trunc, &buf, i, Expect::Canon);
 			if wire_too {
 				wire_consistent::<M>(cx, self.type_id, self.dispatched, &e[..i]);
@@ -257,8 +263,11 @@ impl<M: Msg> Spec<M> {
 		// 2. single-byte substitutions (and the two-byte 0xffff "extended collection length" marker)
 		for off in offsets(len, cfg) {
 			let orig = buf[off];
+			let may_absorb = |o: usize| self.absorb_ok.map(|f| f(v, e, o)).unwrap_or(false);
+			let allowed = may_absorb(off) || (off + 1 < len && may_absorb(off + 1));
 			let mut one = |cx: &mut Ctx, buf: &[u8]| {
-				if let Some(x) = examine::<M>(cx, Class::Subst, buf, len, Expect::Any) {
+				let exp = if allowed { Expect::Any } else { Expect::NotEq("substitution-absorbed", v) };
+				if let Some(x) = examine::<M>(cx, Class::Subst, buf, len, exp) {
 					if &x != v {
 						cx.stats.changed_ok += 1;
 					}
@@ -289,24 +298,27 @@ impl<M: Msg> Spec<M> {
 		}
 		// 3. one- and two-byte extensions
 		if len + 2 + 2 <= MAX_MSG + 2 {
+			const A: [u8; 8] = [0x00, 0x01, 0x02, 0x03, 0xfc, 0xfd, 0xfe, 0xff];
 			let mut ext = e.to_vec();
 			ext.push(0);
 			ext.extend_from_slice(&POISON);
 			for b in 0..=255u8 {
+				if big && !A.contains(&b) {
+					continue;
+				}
 				ext[len] = b;
 				examine::<M>(cx, Class::Ext, &ext, len + 1, Expect::Any);
 			}
 			let mut ext2 = e.to_vec();
 			ext2.extend_from_slice(&[0, 0]);
 			ext2.extend_from_slice(&POISON);
-			const A: [u8; 8] = [0x00, 0x01, 0x02, 0x03, 0xfc, 0xfd, 0xfe, 0xff];
 			let mut pairs: Vec<(u8, u8)> = Vec::new();
 			for a in A {
 				for b in A {
 					pairs.push((a, b));
 				}
 			}
-			if cfg.thorough {
+			if cfg.thorough && !big {
 				for a in 0..=255u8 {
 					for b in [0x00u8, 0x01, 0x02, 0xfd, 0xff] {
 						if !(A.contains(&a) && A.contains(&b)) {
@@ -420,6 +432,19 @@ impl<M: Msg> TypeRunner for Spec<M> {
 				buf[1] = b;
 				examine::<M>(&mut cx, Class::Short, &buf, 2, Expect::Any);
 				wire_consistent::<M>(&mut cx, self.type_id, self.dispatched, &[a, b]);
+			}
+		}
+		// Uniform strings b^L: every byte value, every length 3..=160, every 13th up to 1500 and the
+		// buffer-size / message-size boundaries (all-0xff maximises every length field, all-0x00
+		// minimises it).
+		let mut lens: Vec<usize> = (3..=160).collect();
+		lens.extend((161..=1500).step_by(13));
+		lens.extend_from_slice(&[4095, 4096, 4097, 32768, 65533]);
+		for b in 0..=255u8 {
+			let mut u = vec![b; 65533];
+			u.extend_from_slice(&POISON);
+			for l in &lens {
+				examine::<M>(&mut cx, Class::Uniform, &u, *l, Expect::Any);
 			}
 		}
 		CaseOut { stats: cx.stats, viols: cx.viols, sample: None, machinery_error: None }
